@@ -127,6 +127,15 @@ def r1_static(repo: Repo, rep):
         stored = p.env.get("self.created_points")
         rep.check(R, stored is not None and dump(stored) == dk and p.ret is not None and dump(p.ret) == dk, fi.site(p.ret_node), fi.fq,
                   "the fresh draw is both cached and returned", f"cached {dump(stored)[:60]}, returned {dump(p.ret)[:60]}", "store/return mismatch")
+    # ---- queries do not advance the automaton
+    for qname in ("__len__",):
+        q = ss.methods.get(qname)
+        if q is None:
+            continue
+        rep.saw(q)
+        acts = sorted({dump(c.func) for c in ast.walk(q.node) if isinstance(c, ast.Call) and dump(c.func) in ("self.sample_points", "self.sampler.sample_points", "next")}
+                      | {dump(t) for n in ast.walk(q.node) if isinstance(n, (ast.Assign, ast.AugAssign)) for t in (n.targets if isinstance(n, ast.Assign) else [n.target]) if dump(t).startswith("self.")})
+        rep.check(R, not acts, q.site(), q.fq, f"{qname} is a pure query: it neither draws nor counts a use", str(acts), f"{qname}: {acts}")
     # ---- constructor state
     init = ss.methods.get("__init__")
     if init is not None:
